@@ -134,7 +134,7 @@ func (e *env) pool(next func() []rt.Params, timeout func(n int) time.Duration, s
 
 // runOne runs a single job in its own process.
 func (e *env) runOne(p rt.Params) (*rt.Result, batchOutcome) {
-	o := e.runBatch([]rt.Params{p}, 120*time.Second)
+	o := e.runBatch([]rt.Params{p}, 900*time.Second)
 	if len(o.results) == 1 {
 		return &o.results[0], o
 	}
